@@ -9,7 +9,7 @@
    than 16, covered by the graded form (24 * 2^12 <= 2^22). *)
 From RM Require Import Model.Decoders Model.CurveDist Model.Reader Model.Encoding.
 From RM Require Import Proofs.DecodeTerminatesPoints Proofs.DecodeTerminates Proofs.DecodeTerminatesLines
-     Proofs.C01Bytes.
+     Proofs.DecodeTerminatesSegments Proofs.DecodeTerminatesSegLines Proofs.C01Bytes.
 From RM Require Model.Curve Proofs.ThetaLoop.
 Open Scope Z_scope.
 
@@ -104,4 +104,54 @@ Proof.
   intros Hlm. destruct ex24_hyp as [Hb Hh]. split.
   - exact (decode_hit_objects_fits lm Hlm ex24_lines Hh).
   - exact (decode_beatmap_fits lm Hlm ex24_lines Hb).
+Qed.
+
+(* [ex43]: three Bezier segments of 14 point pieces each, all at the
+   coordinate limits: 43 control points (1 + 3 * 14), far outside the whole-slider
+   rule (43 * 2^18 > 2^22), every segment within 16 control points. *)
+Definition ex43_lines : list str :=
+  map lit ["osu file format v14"; "[HitObjects]";
+           "-131072,-131072,0,2,0,B|131072:131072|-131072:131072|131072:-131072|131072:131072|-131072:131072|131072:-131072|131072:131072|-131072:131072|131072:-131072|131072:131072|-131072:131072|131072:-131072|131072:131072|-131072:131072|B|131072:-131072|131072:131072|-131072:131072|131072:-131072|131072:131072|-131072:131072|131072:-131072|131072:131072|-131072:131072|131072:-131072|131072:131072|-131072:131072|131072:-131072|131072:131072|B|-131072:131072|131072:-131072|131072:131072|-131072:131072|131072:-131072|131072:131072|-131072:131072|131072:-131072|131072:131072|-131072:131072|131072:-131072|131072:131072|-131072:131072|131072:-131072,1,100"]%string.
+
+Definition parsed_shape (objs : list HitObject) : list (nat * nat * list bool) :=
+  flat_map (fun h => match h_kind h with
+                     | KSlider s => [(length (sl_control_points s), max_seg_len (sl_control_points s),
+                                      map (fun p => match cp_type p with Some _ => true | None => false end)
+                                          (sl_control_points s))]
+                     | _ => [] end) objs.
+
+Lemma ex43_lines_fit : lines_seg_fit ex43_lines = true /\ lines_fit 16 ex43_lines = false.
+Proof. vm_compute. split; reflexivity. Qed.
+
+Lemma ex43_parsed :
+  map (fun x => (fst (fst x), snd (fst x))) (parsed_shape (bm_parsed ex43_lines)) = [(43%nat, 16%nat)] /\
+  map (fun x => filter (fun b => b) (snd x)) (parsed_shape (bm_parsed ex43_lines)) = [[true; true; true]] /\
+  map (obj_seg_le 16) (bm_parsed ex43_lines) = [true] /\
+  map (obj_seg_le 15) (bm_parsed ex43_lines) = [false] /\
+  map (obj_seg_fits 18) (bm_parsed ex43_lines) = [true] /\
+  map (obj_seg_fits 17) (bm_parsed ex43_lines) = [false] /\
+  map obj_fits_some (bm_parsed ex43_lines) = [false] /\
+  map (obj_seg_le 16) (ho_parsed ex43_lines) = [true].
+Proof. vm_compute. repeat split; reflexivity. Qed.
+
+Lemma ex43_decodes lm : ThetaLoop.atan2_in_range lm ->
+  (exists hv, decode_hit_objects (dist_of_curve lm) ex43_lines = Done hv) /\
+  (exists bv, decode_beatmap (dist_of_curve lm) ex43_lines = Done bv).
+Proof. intros Hlm. exact (decode_terminates_seg_lines lm Hlm ex43_lines (proj1 ex43_lines_fit)). Qed.
+
+Lemma Forall_of_map_true {A} (f : A -> bool) l : map f l = [true] -> Forall (fun x => f x = true) l.
+Proof.
+  intros H. apply Forall_forall. intros x Hx. apply (in_map f) in Hx. rewrite H in Hx.
+  destruct Hx as [Hx|[]]. symmetry. exact Hx.
+Qed.
+
+(* ... also by the state-side theorem *)
+Lemma ex43_decodes_state lm : ThetaLoop.atan2_in_range lm ->
+  (exists hv, decode_hit_objects (dist_of_curve lm) ex43_lines = Done hv) /\
+  (exists bv, decode_beatmap (dist_of_curve lm) ex43_lines = Done bv).
+Proof.
+  intros Hlm. destruct ex43_parsed as (_ & _ & Hb & _ & _ & _ & _ & Hh).
+  destruct (decode_terminates_segments lm Hlm ex43_lines) as [H1 H2]. split.
+  - exact (H1 (Forall_of_map_true _ _ Hh)).
+  - exact (H2 (Forall_of_map_true _ _ Hb)).
 Qed.
